@@ -423,7 +423,7 @@ def _run_case(src, T, mem):
     from microjs import Context
     from microjs.errors import TimeLimitError, MemoryLimitError, JSError
     c = Context(time_limit=T, memory_limit=mem)
-    t0 = _t.time()
+    t0 = _t.process_time()       # CPU time of this worker: what the evaluation itself spent, however loaded the machine is
     try:
         r = c.eval(src)
         kind = "returned " + repr(r)[:40]
@@ -435,7 +435,7 @@ def _run_case(src, T, mem):
         kind = "JSError: " + str(e)[:60]
     except BaseException as e:  # noqa
         kind = "HOST " + type(e).__name__ + ": " + str(e)[:60]
-    return kind, _t.time() - t0
+    return kind, _t.process_time() - t0
 
 
 def _case_worker(args):
@@ -444,13 +444,16 @@ def _case_worker(args):
 
     def boom(*a):
         raise SystemExit(9)
+    signal.signal(signal.SIGPROF, boom)
     signal.signal(signal.SIGALRM, boom)
-    signal.alarm(15)
+    signal.setitimer(signal.ITIMER_PROF, 15)      # 15 s of CPU time ...
+    signal.alarm(300)                              # ... (and a wall-clock backstop far beyond what load can explain)
     try:
         return _run_case(src, T, mem)
     except SystemExit:
-        return "HANG (killed after 15 s)", 15.0
+        return "HANG (killed after 15 s of CPU time)", 15.0
     finally:
+        signal.setitimer(signal.ITIMER_PROF, 0)
         signal.alarm(0)
 
 
@@ -510,7 +513,9 @@ def _reentrant_case(name):
     def boom(*a):
         raise SystemExit(9)
     signal.signal(signal.SIGALRM, boom)
-    signal.alarm(20)
+    signal.signal(signal.SIGPROF, boom)
+    signal.setitimer(signal.ITIMER_PROF, 20)      # CPU time; wall-clock backstop below
+    signal.alarm(300)
     T = 0.3
     ctx = Context(time_limit=0 if name == "zero-limit" else T)
     spin = "function spin(ms){ var t = Date.now(); while (Date.now() - t < ms) {} } "
@@ -530,7 +535,7 @@ def _reentrant_case(name):
     }
     host, src = progs[name]
     ctx.set("py", host)
-    t0 = _t.time()
+    t0 = _t.process_time()
     try:
         try:
             r = ctx.eval(src)
@@ -540,12 +545,13 @@ def _reentrant_case(name):
         except JSError as e:
             kind = "JSError: " + str(e)[:70]
         except SystemExit:
-            kind = "HANG (killed after 20 s)"
+            kind = "HANG (killed after 20 s of CPU time)"
         except BaseException as e:  # noqa
             kind = "HOST " + type(e).__name__ + ": " + str(e)[:60]
     finally:
+        signal.setitimer(signal.ITIMER_PROF, 0)
         signal.alarm(0)
-    return name, src, kind, _t.time() - t0
+    return name, src, kind, _t.process_time() - t0
 
 
 REENTRANT = ["inner-eval-then-nested", "inner-eval-then-Function", "inner-eval-then-regex", "inner-eval-then-getter-values", "inner-get-set-then-nested",
